@@ -201,6 +201,17 @@ func gen(thorough bool, emit func(tcase)) {
 		{`"\\\\"`, `\\`}, {`"a\\nb"`, `a\nb`}, {`"日本語"`, "日本語"}, {`""`, ""}, {`" "`, " "}, {`"a'b"`, "a'b"}, {"\"a`b\"", "a`b"}} {
 		emit(tcase{Class: "str/sample", Src: p[0], Kind: "str", Strs: []string{p[1]}})
 	}
+	// interpolated strings: every printable character in the literal pieces around an interpolation stays itself
+	for c := 0x20; c <= 0x7e; c++ {
+		ch := string(rune(c))
+		if ch == `"` || ch == `\` || ch == "#" || ch == "{" || ch == "}" {
+			continue
+		}
+		emit(tcase{Class: "str/interpolated-literal-piece", Src: `"x` + ch + `y#{5}z` + ch + ch + `#{6}` + ch + `"`, Kind: "str", Strs: []string{"x" + ch + "y5z" + ch + ch + "6" + ch}})
+	}
+	for _, p := range [][2]string{{`"\x25d#{1}\u0025s"`, "%d1%s"}, {`"100%#{1}"`, "100%1"}, {`"#{1}%"`, "1%"}, {`"%v#{nil}%v"`, "%vnil%v"}, {`"a\tb#{1}\n"`, "a\tb1\n"}, {`"日本#{1}語"`, "日本1語"}} {
+		emit(tcase{Class: "str/interpolated-literal-piece", Src: p[0], Kind: "str", Strs: []string{p[1]}})
+	}
 	for _, p := range [][2]string{{`["a\\", "x"].len`, "2"}, {`["\\", "y"].len`, "2"}, {`["a\\", "x"][1]`, `"x"`}} {
 		emit(tcase{Class: "str/escaped-backslash-before-quote", Src: p[0], Kind: "repr", Strs: []string{p[1]}, Risky: true})
 	}
